@@ -3,6 +3,8 @@
 use vstd::prelude::*;
 verus! {
 global size_of usize == 8;
+//@extract consts src/callbacks/simplestats.rs
+//@end
 
 #[allow(unused_macros)] macro_rules! info { ($($t:tt)*) => { () } }
 
